@@ -131,3 +131,13 @@ func init() {
 			{Name: "generated", Run: "^TestRepeatGenerated$", Checks: [2]int{120, 1500}, Shards: [2]int{6, 16}},
 		}})
 }
+
+func init() {
+	reg(PropCfg{ID: "C18", Pkg: "c18", Level: "exploration",
+		Rule: "exhaustive cross product read from the code at run time: for 21 type instantiations every key of ast.Type.Fields() (178 type/member pairs) must exist in Fields() of runtime values of that type in both value libraries; for every pair, receivers {empty, one, many / \"\", ascii, non-ascii / ranges / options / objects / any-objects} x argument tuples from boundary sets built from the ADVERTISED parameter types (indices -len-1..len+1, Min/MaxInt64, empty/present/absent strings and elements, some/none) a one-line program uses the result at its advertised type on both backends: never a crash or hang, outcome ok or an interrupt; index-taking members and the indexing forms l[i], l[i]=v, s[i], obj[k], {?}[k], {?}->k are compared with a reference model (negative indices from the end, out of range = interrupt); members with an unambiguous meaning are compared with the model's value; every executed case is non-trivial; distinct by program text",
+		Jobs: []Job{
+			{Name: "keys", Run: "^TestTableKeys$", Shards: [2]int{1, 1}},
+			{Name: "members", Run: "^TestTableMembers$", Shards: [2]int{2, 4}},
+			{Name: "index", Run: "^TestTableIndex$", Shards: [2]int{2, 4}},
+		}})
+}
